@@ -38,8 +38,10 @@ theorem abspath_listedPath (cwd : Comps) (B : PPath) (f : FileEnt)
     abspath cwd (listedPath B f) = abspath cwd B ++ f.rel := by
   unfold abspath listedPath
   cases hB : B.abs
-  · simp [normpath_append_clean false _ _ h]
-  · simp [normpath_append_clean true _ _ h]
+  · simp only [Bool.false_eq_true, if_false]
+    rw [← List.append_assoc, normpath_append_clean true _ _ h]
+  · simp only [if_true]
+    rw [normpath_append_clean true _ _ h]
 
 theorem name_nil : name [] = "" := rfl
 
@@ -61,8 +63,12 @@ theorem abspath_getLast?_of_clean (cwd : Comps) (B : PPath)
     unfold abspath
     rw [e, name_concat]
     cases B.abs
-    · simp [normpath_append_clean false init [c] hc, ← List.append_assoc]
-    · simp [normpath_append_clean true init [c] hc]
+    · simp only [Bool.false_eq_true, if_false]
+      rw [← List.append_assoc, normpath_append_clean true _ [c] hc]
+      simp
+    · simp only [if_true]
+      rw [normpath_append_clean true init [c] hc]
+      simp
 
 /-! ### `relativeTo` -/
 
@@ -152,26 +158,6 @@ theorem foldl_commonPrefix2_cons (n : String) (a : Comps) (l : List Comps) :
   | nil => rfl
   | cons b l ih => simp only [List.map_cons, List.foldl_cons, commonPrefix2_cons, ih]
 
-/-- `commonpath` of the relative paths of a listing (`[]` for the empty listing) -/
-def cpRel : List FileEnt → Comps
-  | [] => []
-  | f :: fs => (fs.map (·.rel)).foldl commonPrefix2 f.rel
-
-theorem commonpath_getter (n : String) (f : FileEnt) (fs : List FileEnt) :
-    commonpath ((f :: fs).map fun g => n :: g.rel) = some (n :: cpRel (f :: fs)) := by
-  simp only [List.map_cons, commonpath, cpRel]
-  have : fs.map (fun g => n :: g.rel) = (fs.map (·.rel)).map (n :: ·) := by simp
-  rw [this, foldl_commonPrefix2_cons]
-
-theorem cpRel_prefix (L : List FileEnt) : ∀ f ∈ L, cpRel L <+: f.rel := by
-  cases L with
-  | nil => intro f hf; cases hf
-  | cons g gs =>
-    intro f hf
-    rcases List.mem_cons.mp hf with rfl | hf
-    · exact foldl_commonPrefix2_prefix_init _ _
-    · exact foldl_commonPrefix2_prefix_mem _ _ _ (List.mem_map.mpr ⟨f, hf, rfl⟩)
-
 /-! ### `isHidden` -/
 
 theorem isHidden_append (a b : Comps) : isHidden (a ++ b) = (isHidden a || isHidden b) := by
@@ -249,74 +235,26 @@ theorem isExcluded_eq (o : Oracles) (st : Settings) (p : String) :
   generalize st.exGlobs.any (fun g => o.glob (o.cf p) (o.cf g)) = d
   cases a <;> cases b <;> cases c <;> cases d <;> rfl
 
-theorem noPatterns_iff (st : Settings) : Spec.noPatterns st = true ↔
-    st.exGlobs = [] ∧ st.exRegexs = [] ∧ st.inGlobs = [] ∧ st.inRegexs = [] := by
-  simp [Spec.noPatterns, List.isEmpty_iff, and_assoc]
-
-theorem excluded_noPatterns (o : Oracles) (st : Settings) (p : String)
-    (h : Spec.noPatterns st = true) : Spec.excluded o st p = false := by
-  obtain ⟨h1, h2, _, _⟩ := (noPatterns_iff st).mp h
-  simp [Spec.excluded, h1, h2]
-
 theorem withBaseStr_top (n : String) (rel : Comps) :
     withBaseStr [n] (n :: rel) = joinSlash (n :: rel) := by
   simp [withBaseStr, parent, strOf]
 
+/-- with the torrent's directory handed in (`basepath = name`) the two tests of `filter_files`
+    are the specified ones, for every file of the tree -/
 theorem filterKeep_eq_keep (o : Oracles) (st : Settings) (cwd : Comps)
-    (n : String) (cp : Comps) (f : FileEnt)
-    (hrel : f.rel.all isClean = true) (hcp : cp <+: f.rel) (hh : isHidden cp = false)
-    (hpat : cp = [] ∨ Spec.noPatterns st = true)
+    (n : String) (f : FileEnt)
+    (hrel : f.rel.all isClean = true)
     (hsz : (f.size != 0) = true) :
-    filterKeep o st cwd (n :: cp) (n :: f.rel) = Spec.keep o st n f := by
-  obtain ⟨d, hd⟩ := hcp
-  have hdc : d.all isClean = true := by
-    rw [← hd, List.all_append, Bool.and_eq_true] at hrel; exact hrel.2
-  have hrp : relpath cwd (n :: f.rel) (n :: cp) = d := by
-    have : n :: f.rel = (n :: cp) ++ d := by rw [← hd]; rfl
-    rw [this, relpath_below cwd _ d hdc]
-  have hhd : isHidden d = isHidden f.rel := by
-    rw [← hd, isHidden_append, hh, Bool.false_or]
-  have hex : isExcluded o st (withBaseStr (n :: cp) (n :: f.rel))
-      = (Spec.excluded o st (Spec.patPath n f) && !Spec.included o st (Spec.patPath n f)) := by
-    rcases hpat with rfl | hnp
-    · rw [withBaseStr_top, isExcluded_eq]; rfl
-    · rw [isExcluded_eq, excluded_noPatterns o st _ hnp, excluded_noPatterns o st _ hnp]; rfl
-  unfold filterKeep Spec.keep
-  simp only [hrp, hhd, hsz, hex]
+    filterKeep o st cwd [n] (n :: f.rel) = Spec.keep o st n f := by
+  have hrp : relpath cwd (n :: f.rel) [n] = f.rel := by
+    have : n :: f.rel = [n] ++ f.rel := rfl
+    rw [this, relpath_below cwd _ f.rel hrel]
+  unfold filterKeep Spec.keep Spec.patPath
+  simp only [hrp, hsz, withBaseStr_top, isExcluded_eq]
   generalize isHidden f.rel = a
-  generalize Spec.excluded o st (Spec.patPath n f) = c
-  generalize Spec.included o st (Spec.patPath n f) = e
+  generalize Spec.excluded o st (joinSlash (n :: f.rel)) = c
+  generalize Spec.included o st (joinSlash (n :: f.rel)) = e
   cases a <;> cases c <;> cases e <;> rfl
-
-/-- what `prefixOK` buys: the common directory of the files handed to `filter_files` is not
-    hidden, and it is the tree's top unless there are no patterns -/
-theorem cpRel_ok (st : Settings) (F : List FileEnt) (L : List FileEnt) (hperm : L.Perm F)
-    (hne : L ≠ []) (hprefix : Spec.prefixOKOn st F = true) :
-    isHidden (cpRel L) = false ∧ (cpRel L = [] ∨ Spec.noPatterns st = true) := by
-  have hm : ∀ f, f ∈ F → f ∈ L := fun f hf => hperm.mem_iff.mpr hf
-  unfold Spec.prefixOKOn at hprefix
-  simp only [Bool.or_eq_true, Bool.and_eq_true, List.any_eq_true, List.isEmpty_iff,
-    Bool.not_eq_true', bne_iff_ne, ne_eq] at hprefix
-  have nilcase : cpRel L = [] → isHidden (cpRel L) = false ∧ (cpRel L = [] ∨ Spec.noPatterns st = true) := by
-    intro h; rw [h]; exact ⟨rfl, Or.inl rfl⟩
-  rcases hprefix with ((h | ⟨f, hf, g, hg, hfg⟩) | ⟨f, hf, hfe⟩) | ⟨hnp, f, hf, hfh⟩
-  · rw [h] at hperm; exact absurd hperm.eq_nil hne
-  · apply nilcase
-    have pf := cpRel_prefix L f (hm f hf)
-    have pg := cpRel_prefix L g (hm g hg)
-    cases hc : cpRel L with
-    | nil => rfl
-    | cons c cs =>
-      rw [hc] at pf pg
-      obtain ⟨d1, e1⟩ := pf
-      obtain ⟨d2, e2⟩ := pg
-      rw [← e1, ← e2] at hfg
-      exact absurd rfl hfg
-  · apply nilcase
-    have pf := cpRel_prefix L f (hm f hf)
-    rw [hfe] at pf
-    exact List.prefix_nil.mp pf
-  · exact ⟨isHidden_prefix (cpRel_prefix L f (hm f hf)) hfh, Or.inr hnp⟩
 
 /-! ### the stages of `_set_files` -/
 
@@ -358,37 +296,29 @@ theorem filesInfo_eq (cwd : Comps) (B : PPath) (L : List FileEnt)
     rw [abspath_listedPath cwd B f (hL f hf), relativeTo_append]
     rfl
 
+theorem pathlibNorm_single (n : String) (h : isClean n = true) :
+    (pathlibNorm ⟨false, [n]⟩).comps = [n] := by
+  unfold isClean at h
+  simp only [Bool.and_eq_true, bne_iff_ne, ne_eq] at h
+  simp [pathlibNorm, h.1.1, h.1.2]
+
 theorem filterFiles_eq (o : Oracles) (st : Settings) (cwd : Comps)
-    (B : PPath) (t : Tree) (L : List FileEnt) (hperm : L.Perm (Spec.nonEmpty t))
+    (B : PPath) (n : String) (hn : isClean n = true) (L : List FileEnt)
     (hrel : ∀ f ∈ L, f.rel.all isClean = true)
-    (hsz : ∀ f ∈ L, (f.size != 0) = true)
-    (hprefix : Spec.prefixOK st t = true) :
-    (filterFiles o st cwd (L.map fun f => (mkItem B f, t.name :: f.rel))).map (·.1)
-      = (L.filter (Spec.keep o st t.name)).map (mkItem B) := by
-  cases hL : L with
-  | nil => rfl
-  | cons f0 fs =>
-    rw [← hL]
-    have hne : L ≠ [] := by rw [hL]; exact List.cons_ne_nil _ _
-    obtain ⟨hh, hpat⟩ := cpRel_ok st (Spec.nonEmpty t) L hperm hne hprefix
-    unfold filterFiles
-    have hbase : (commonpath ((L.map fun f => (mkItem B f, t.name :: f.rel)).map (·.2))).getD cwd
-        = t.name :: cpRel L := by
-      rw [List.map_map]
-      have : ((fun x : Item × Comps => x.2) ∘ fun f => (mkItem B f, t.name :: f.rel))
-          = fun g : FileEnt => t.name :: g.rel := rfl
-      rw [this, hL, commonpath_getter]; rfl
-    simp only [hbase]
-    rw [List.filter_map, List.map_map]
-    have hcongr : L.filter ((fun it : Item × Comps =>
-          filterKeep o st cwd (t.name :: cpRel L) it.2) ∘
-            fun f => (mkItem B f, t.name :: f.rel)) = L.filter (Spec.keep o st t.name) := by
-      apply List.filter_congr
-      intro f hf
-      exact filterKeep_eq_keep o st cwd t.name (cpRel L) f (hrel f hf)
-        (cpRel_prefix L f hf) hh hpat (hsz f hf)
-    rw [hcongr]
-    rfl
+    (hsz : ∀ f ∈ L, (f.size != 0) = true) :
+    (filterFiles o st cwd (some n) (L.map fun f => (mkItem B f, n :: f.rel))).map (·.1)
+      = (L.filter (Spec.keep o st n)).map (mkItem B) := by
+  unfold filterFiles
+  simp only [pathlibNorm_single n hn]
+  rw [List.filter_map, List.map_map]
+  have hcongr : L.filter ((fun it : Item × Comps =>
+        filterKeep o st cwd [n] it.2) ∘
+          fun f => (mkItem B f, n :: f.rel)) = L.filter (Spec.keep o st n) := by
+    apply List.filter_congr
+    intro f hf
+    exact filterKeep_eq_keep o st cwd n f (hrel f hf) (hsz f hf)
+  rw [hcongr]
+  rfl
 
 /-- the final sort (`sorted(filepaths)` on pathlib paths) is the sort on relative paths -/
 theorem sortBy_items (B : PPath) (K : List FileEnt) :
@@ -438,68 +368,33 @@ theorem kept_eq_of_perm (o : Oracles) (st : Settings) (t : Tree) (L : List FileE
 
 theorem dirName_eq (cwd : Comps) (B : PPath) (n : String)
     (hB : ∀ c ∈ B.comps, c ≠ "" ∧ c ≠ ".")
-    (hclean : isClean n = true)
-    (hn : (abspath cwd B).getLast? = some n)
-    (hsp : (B.abs || B.comps.isEmpty ||
-      ((normpath false B.comps).getLast?.any fun c => c != "..")) = true) :
+    (hn : (abspath cwd B).getLast? = some n) :
     dirName cwd B = n := by
-  obtain ⟨a, cs⟩ := B
-  simp only at hB hn hsp
   unfold dirName
-  simp only
   split
-  · rename_i h1
-    simp only [Bool.and_eq_true, Bool.not_eq_true', List.isEmpty_iff] at h1
-    obtain ⟨rfl, rfl⟩ := h1
-    have : abspath cwd ⟨false, []⟩ = cwd := by simp [abspath, normpath]
-    rw [this] at hn
-    exact name_of_getLast? hn
-  · rename_i h1
-    split
-    · rename_i h2
-      simp only [Bool.and_eq_true, Bool.not_eq_true', beq_iff_eq] at h2
-      obtain ⟨rfl, rfl⟩ := h2
-      have : abspath cwd ⟨false, [".."]⟩ = cwd ++ [".."] := by
-        simp [abspath, normpath, normStep]
-      rw [this, List.getLast?_concat] at hn
-      have : n = ".." := (Option.some.inj hn).symm
-      rw [this] at hclean
-      exact absurd hclean (by decide)
-    · split
-      · cases a with
+  · exact name_of_getLast? hn
+  · rename_i h
+    -- the last spelled component does not end in a dot, so it is a real name
+    simp only [endsWithDot, Bool.or_eq_true, Bool.and_eq_true, Bool.not_eq_true',
+      List.isEmpty_iff, beq_iff_eq, not_or, not_and] at h
+    have hcl : isClean (name B.comps) = true := by
+      rcases List.eq_nil_or_concat B.comps with e | ⟨init, c, e⟩
+      · -- no component: the relative one is `.` (excluded by `h`), the absolute one is `/`,
+        -- whose `abspath` is `[]` and has no last component
+        cases ha : B.abs with
+        | false => exact absurd e (h.1 ha)
         | true =>
-          have : abspath cwd ⟨true, cs⟩ = normpath true cs := by simp [abspath]
-          rw [this] at hn
-          exact name_of_getLast? hn
-        | false =>
-          have hcs : cs.isEmpty = false := by
-            cases hc : cs.isEmpty with
-            | false => rfl
-            | true => simp [hc] at h1
-          simp only [hcs, Bool.false_or, Option.any_eq_true] at hsp
-          obtain ⟨c, hc, _⟩ := hsp
-          have : abspath cwd ⟨false, cs⟩ = cwd ++ normpath false cs := by simp [abspath]
-          rw [this, List.getLast?_append, hc] at hn
-          simp only [Option.some_or] at hn
-          apply name_of_getLast?
-          rw [hc]; exact hn
-      · rename_i h3
-        have hcl : isClean (name cs) = true := by
-          rcases List.eq_nil_or_concat cs with e | ⟨init, c, e⟩
-          · subst e
-            cases a with
-            | false => simp at h1
-            | true => simp [abspath, normpath] at hn
-          · rw [List.concat_eq_append] at e
-            subst e
-            rw [name_concat] at h3 ⊢
-            have hm := hB c (by simp)
-            have h4 : c ≠ ".." := by
-              intro e; rw [e] at h3; exact h3 (by decide)
-            simp [isClean, hm.1, hm.2, h4]
-        have := abspath_getLast?_of_clean cwd ⟨a, cs⟩ hcl
-        rw [hn] at this
-        exact (Option.some.inj this).symm
+          have : abspath cwd B = [] := by simp [abspath, ha, e, normpath]
+          rw [this] at hn; cases hn
+      · rw [List.concat_eq_append] at e
+        rw [e, name_concat] at h ⊢
+        have hm := hB c (by rw [e]; simp)
+        have h4 : c ≠ ".." := by
+          intro e'; rw [e'] at h; exact h.2 (by decide)
+        simp [isClean, hm.1, hm.2, h4]
+    have := abspath_getLast?_of_clean cwd B hcl
+    rw [hn] at this
+    exact (Option.some.inj this).symm
 
 /-! ### `_set_files` as a whole -/
 
@@ -536,36 +431,32 @@ theorem setFiles_eq_created (o : Oracles) (st : Settings) (cwd : Comps)
     (hrel : ∀ f ∈ t.files, f.rel.all isClean = true)
     (hnodup : (t.files.map (·.rel)).Nodup)
     (hn : (abspath cwd B).getLast? = some t.name)
-    (hsp1 : (B.abs || B.comps.isEmpty ||
-      ((normpath false B.comps).getLast?.any fun c => c != "..")) = true)
     (hsp2 : (!t.files.any (·.rel.isEmpty) || isClean (name B.comps)) = true)
-    (hex : ∀ f ∈ t.files, ex (listedPath B f) = true)
-    (hprefix : Spec.prefixOK st t = true) :
+    (hex : ∀ f ∈ t.files, ex (listedPath B f) = true) :
     setFiles o st cwd ex (L0.map (mkItem B)) B = .ok (Spec.created o st t) := by
   have hm0 : ∀ f, f ∈ L0 → f ∈ t.files := fun f hf => hperm0.mem_iff.mp hf
   have hdrop := dropEmpty_eq ex B L0 (fun f hf => hex f (hm0 f hf))
   have hspec0 := kept_eq_of_perm o st t L0 hperm0 hnodup
   rw [← filter_keep_nonEmpty] at hspec0
   generalize hLdef : (L0.filter fun f => f.size != 0) = L at hdrop hspec0
-  have hperm : L.Perm (Spec.nonEmpty t) := by
-    rw [← hLdef]; exact hperm0.filter _
   have hm : ∀ f, f ∈ L → f ∈ t.files := fun f hf => by
     rw [← hLdef] at hf; exact hm0 f (List.mem_filter.mp hf).1
   have hszL : ∀ f ∈ L, (f.size != 0) = true := fun f hf => by
     rw [← hLdef] at hf; exact (List.mem_filter.mp hf).2
   have hrelL : ∀ f ∈ L, f.rel.all isClean = true := fun f hf => hrel f (hm f hf)
-  have hk := filterFiles_eq o st cwd B t L hperm hrelL hszL hprefix
+  have hname : name (abspath cwd B) = t.name := name_of_getLast? hn
+  have hk := filterFiles_eq o st cwd B t.name hclean L hrelL hszL
   have hK : ∀ f, f ∈ L.filter (Spec.keep o st t.name) →
       f ∈ t.files ∧ Spec.keep o st t.name f = true := by
     intro f hf
     have := List.mem_filter.mp hf
     exact ⟨hm f this.1, this.2⟩
   have hspec := hspec0
-  have hdir := dirName_eq cwd B t.name hB hclean hn hsp1
+  have hdir := dirName_eq cwd B t.name hB hn
   unfold setFiles
   simp only [hdrop, withGetter_eq cwd B t.name L hn hrelL]
   dsimp only [bind, Except.bind]
-  simp only [hk, sortBy_items, hdir]
+  simp only [hname, hk, sortBy_items, hdir]
   unfold Spec.created
   simp only [hspec]
   generalize L.filter (Spec.keep o st t.name) = K at hK
@@ -611,16 +502,15 @@ theorem setFiles_eq_created (o : Oracles) (st : Settings) (cwd : Comps)
 
 /-- the refinement: under `hypB` the model computes the specified torrent -/
 theorem pathSetter_eq_created (o : Oracles) (st : Settings) (env : Env) (t : Tree)
-    (h : Spec.hypB st env t = true) :
+    (h : Spec.hypB env t = true) :
     pathSetter o st env = .ok (Spec.created o st t) := by
   unfold Spec.hypB at h
   simp only [Bool.and_eq_true] at h
-  obtain ⟨⟨⟨⟨⟨hct, hsp⟩, hnm⟩, hpr⟩, hpf⟩, hord⟩ := h
+  obtain ⟨⟨⟨⟨hct, hsp⟩, hnm⟩, hpr⟩, hord⟩ := h
   unfold Spec.cleanTree at hct
   simp only [Bool.and_eq_true, decide_eq_true_eq, List.all_eq_true] at hct
   obtain ⟨⟨⟨hclean, hrel⟩, hnodup⟩, _⟩ := hct
-  unfold Spec.spellOK at hsp
-  simp only [Bool.and_eq_true] at hsp
+  unfold Spec.fileSpellOK at hsp
   unfold Spec.nameOK at hnm
   unfold Spec.listedExist at hpr
   simp only [List.all_eq_true] at hpr
@@ -630,7 +520,7 @@ theorem pathSetter_eq_created (o : Oracles) (st : Settings) (env : Env) (t : Tre
   simp only [hlist]
   exact setFiles_eq_created o st env.cwd env.pathExists (pathlibNorm env.spelling) t L
     (hL.trans hperm) (pathlibNorm_mem env.spelling) hclean
-    (fun f hf => List.all_eq_true.mpr (hrel f hf)) hnodup (by simpa using hnm) hsp.1 hsp.2 hpr hpf
+    (fun f hf => List.all_eq_true.mpr (hrel f hf)) hnodup (by simpa using hnm) hsp hpr
 
 /-! ### the stored file list -/
 
@@ -758,13 +648,14 @@ theorem setFiles_no_empty (o : Oracles) (st : Settings) (cwd : Comps) (ex : PPat
   cases hw : withGetter cwd (abspath cwd B) (dropEmpty ex files) with
   | error e => intro e he; simp [filesOf] at he
   | ok items =>
-    have hkept : ∀ k ∈ (filterFiles o st cwd items).map (·.1), k.ent.size ≠ 0 := by
+    have hkept : ∀ k ∈ (filterFiles o st cwd (some (name (abspath cwd B))) items).map (·.1),
+        k.ent.size ≠ 0 := by
       intro k hk
       obtain ⟨it, hit, rfl⟩ := List.mem_map.mp hk
       unfold filterFiles at hit
       exact hdrop _ (withGetter_mem hw it (List.mem_filter.mp hit).1)
     simp only
-    generalize (filterFiles o st cwd items).map (·.1) = kept at hkept
+    generalize (filterFiles o st cwd (some (name (abspath cwd B))) items).map (·.1) = kept at hkept
     split
     · intro e he; simp [filesOf] at he
     · split
@@ -802,89 +693,7 @@ theorem any_glob_cf (o : Oracles) (l : List String) (p : String) :
     l.any (fun g => o.glob (o.cf p) (o.cf g)) = (l.map o.cf).any (fun g => o.glob (o.cf p) g) := by
   rw [List.any_map]; rfl
 
-/-! ### relative against absolute `normpath` (sufficient condition for `nameOK`) -/
-
-theorem isClean_ne_dotdot {c : String} (h : isClean c = true) : c ≠ ".." := by
-  intro e; rw [e] at h; exact absurd h (by decide)
-
-theorem normStep_dotdot_drop (st0 : List String) (hst : st0.all isClean = true) (k : Nat) :
-    normStep true (st0.drop k) ".." = st0.drop (k + 1) := by
-  have e : st0.drop (k + 1) = (st0.drop k).drop 1 := by rw [List.drop_drop]
-  rw [e]
-  cases h : st0.drop k with
-  | nil => simp [normStep]
-  | cons t s =>
-    have ht : t ∈ st0 := List.mem_of_mem_drop (i := k) (by rw [h]; simp)
-    have hc : t ≠ ".." := isClean_ne_dotdot (List.all_eq_true.mp hst t ht)
-    simp [normStep, hc]
-
-theorem normStep_dotdot_replicate (k : Nat) :
-    normStep false (List.replicate k "..") ".." = List.replicate (k + 1) ".." := by
-  cases k with
-  | zero => simp [normStep]
-  | succ k => simp [normStep, List.replicate_succ]
-
-/-- the simulation between normalising a relative path on its own and behind a clean prefix -/
-def NormSim (st0 sr sa : List String) : Prop :=
-  ∃ (top : List String) (k : Nat), top.all isClean = true ∧
-    sr = top ++ List.replicate k ".." ∧ sa = top ++ st0.drop k
-
-theorem normStep_sim (st0 : List String) (hst : st0.all isClean = true) (c : String)
-    (sr sa : List String) (h : NormSim st0 sr sa) :
-    NormSim st0 (normStep false sr c) (normStep true sa c) := by
-  obtain ⟨top, k, ht, rfl, rfl⟩ := h
-  by_cases h1 : c = "" ∨ c = "."
-  · refine ⟨top, k, ht, ?_, ?_⟩ <;> rcases h1 with rfl | rfl <;> simp [normStep]
-  · by_cases h2 : c = ".."
-    · subst h2
-      cases top with
-      | nil =>
-        refine ⟨[], k + 1, rfl, ?_, ?_⟩
-        · simpa using normStep_dotdot_replicate k
-        · simpa using normStep_dotdot_drop st0 hst k
-      | cons t top' =>
-        simp only [List.all_cons, Bool.and_eq_true] at ht
-        have hc : t ≠ ".." := isClean_ne_dotdot ht.1
-        exact ⟨top', k, ht.2, by simp [normStep, hc], by simp [normStep, hc]⟩
-    · have hc : isClean c = true := by
-        simp only [not_or] at h1
-        simp [isClean, h1.1, h1.2, h2]
-      refine ⟨c :: top, k, by simp [hc, ht], ?_, ?_⟩
-      · rw [normStep_clean _ _ _ hc]; rfl
-      · rw [normStep_clean _ _ _ hc]; rfl
-
-theorem foldl_normStep_sim (st0 : List String) (hst : st0.all isClean = true) (xs : List String)
-    (sr sa : List String) (h : NormSim st0 sr sa) :
-    NormSim st0 (xs.foldl (normStep false) sr) (xs.foldl (normStep true) sa) := by
-  induction xs generalizing sr sa with
-  | nil => exact h
-  | cons c xs ih => exact ih _ _ (normStep_sim st0 hst c sr sa h)
-
-/-- if a relative path normalises to something that ends in a real name, then joining it to a
-    clean working directory the way `_set_files` does (`cwd / normpath(p)`) and normalising the
-    joined path end in the same name -/
-theorem getLast?_abspath_eq_normpath (cwd bc : Comps) (c : String)
-    (hcwd : cwd.all isClean = true)
-    (hlast : (normpath false bc).getLast? = some c) (hc : isClean c = true) :
-    (cwd ++ normpath false bc).getLast? = (normpath true (cwd ++ bc)).getLast? := by
-  have hst : cwd.reverse.all isClean = true := by rw [List.all_reverse]; exact hcwd
-  have hsim := foldl_normStep_sim cwd.reverse hst bc [] cwd.reverse ⟨[], 0, rfl, rfl, rfl⟩
-  obtain ⟨top, k, ht, hr, ha⟩ := hsim
-  have habs : normpath true (cwd ++ bc) = (bc.foldl (normStep true) cwd.reverse).reverse := by
-    unfold normpath
-    rw [List.foldl_append, foldl_normStep_clean true [] cwd hcwd, List.append_nil]
-  rw [List.getLast?_append, hlast, Option.some_or, habs, List.getLast?_reverse, ha]
-  unfold normpath at hlast
-  rw [List.getLast?_reverse, hr] at hlast
-  cases top with
-  | nil =>
-    simp only [List.nil_append, List.head?_replicate] at hlast
-    split at hlast
-    · cases hlast
-    · exact absurd (Option.some.inj hlast).symm (isClean_ne_dotdot hc)
-  | cons t top' =>
-    simp only [List.cons_append, List.head?_cons] at hlast ⊢
-    exact hlast.symm
+/-! ### `normpath` and `pathlib` -/
 
 theorem foldl_normStep_filter (a : Bool) (xs st : List String) :
     (xs.filter fun c => c != "" && c != ".").foldl (normStep a) st = xs.foldl (normStep a) st := by
